@@ -12,7 +12,7 @@ import meta
 from stage import Stage, VERIF, REPO
 
 KNOWN = os.path.join(VERIF, "known_findings.json")
-EVID = os.path.join(VERIF, "evidence")
+EVID = os.environ.get("VERIF_EVIDENCE_DIR") or os.path.join(VERIF, "evidence")
 REPLAYS = os.path.join(VERIF, "replays")
 LOGS = os.path.join(VERIF, "logs")
 
@@ -156,6 +156,19 @@ def replay(prop, path, keep=False):
     return 0
 
 
+def _install_signal_cleanup(stage_holder):
+    import signal
+
+    def handler(signum, frame):
+        kanirun.kill_children()
+        for st in stage_holder:
+            st.cleanup()
+        print("INCONCLUSIVE check terminated by signal %d" % signum)
+        os._exit(2)
+    signal.signal(signal.SIGTERM, handler)
+    signal.signal(signal.SIGINT, handler)
+
+
 def run(prop, tier, seed, keep=False, only=None, jobs=16):
     t0 = time.time()
     props = _props()
@@ -175,6 +188,7 @@ def run(prop, tier, seed, keep=False, only=None, jobs=16):
         print("no checks registered for %s" % prop)
         return 2
     stage = Stage(keep=keep, generated=generated)
+    _install_signal_cleanup([stage])
     results = {}
     groups_info = []
     replays = []
